@@ -357,7 +357,9 @@ def ci2Op {F : Type} [FloatLike F] [Widen F Float] (args : List String) : Option
                   | .twoSided _ => true
                   | .upper l | .lower l => l ≥ 0.5
                 if !applies then [] else
-                let pos := if isRank then 1.0 else slack
+                -- a proportion interval at a zero critical value collapses onto k/n and must contain it exactly
+                let zeroCrit := prod == "wilson" && crit (.z c.quantile) == 0.0
+                let pos := if isRank then 1.0 else if zeroCrit then 0.0 else slack
                 (match lo with
                  | some x => if x ≤ m + pos then [] else ["estimate-below-interval"]
                  | none => []) ++
